@@ -15,10 +15,13 @@ def model_check(ctx):
     ctx.model_check("trie", "MC_MPT", ctx.pick("MC_MPT_snap.cfg", "MC_MPT_snap5.cfg"), timeout=ctx.pick(600, 3000))
     if not ctx.quick():
         ctx.model_check("trie", "MC_MPT", "MC_MPT_snap2.cfg", timeout=3000)
+    # copy-on-write refinement (MPTHeap.tla): node heap with dirty/frozen flags, in-place update vs copy as in the code;
+    # the heap trie equals the value-level trie, snapshots are isolated, frozen nodes never change
+    ctx.model_check("trie", "MC_MPTHeap", "MC_MPTHeap.cfg", timeout=ctx.pick(900, 3000),
+                    constants={"MaxOps": ctx.pick("4", "6")})
     # three-symbol alphabet, three value sizes (29 bytes straddles the embed/hash limit), bounded depth
     ctx.model_check("trie", "MC_MPT", "MC_MPT_w3.cfg", timeout=ctx.pick(600, 3000),
                     constants={"MaxOps": ctx.pick("3", "4")})
-    ctx.exhaustive = True
 
 
 def behaviours(ctx):
@@ -28,8 +31,8 @@ def behaviours(ctx):
         b["fix_nibbles"], b["fix_salt"] = d.get("nibbles", ""), d.get("salt")
         return [b], 0, 0
     wl = ctx.pick(30, 45)
-    n2 = ctx.pick(110, 2500)
-    n3 = ctx.pick(50, 1200)
+    n2 = ctx.pick(110, 1200)
+    n3 = ctx.pick(50, 500)
     walks = ctx.behaviours("trie", "Gen_MPT", "Gen_MPT.cfg", constants={"MaxOps": wl, "Depth": wl},
                            simulate="num=%d" % n2, depth=wl + 1, seed=ctx.seed, timeout=ctx.pick(600, 3000))
     walks3 = ctx.behaviours("trie", "Gen_MPT", "Gen_MPT_w3.cfg", constants={"MaxOps": wl, "Depth": wl},
